@@ -828,6 +828,12 @@ Proof.
   change (last (x :: y :: T') d) with (last (y :: T') d). apply IH. discriminate.
 Qed.
 
+Lemma last_app_r {A} (a b : list A) d : b <> [] -> last (a ++ b) d = last b d.
+Proof.
+  intros Hb. induction a as [|x a IH]; [reflexivity|]. cbn [app].
+  destruct (a ++ b) eqn:E; [apply app_eq_nil in E as [_ E]; congruence|]. exact IH.
+Qed.
+
 Lemma safe_end_last_R p X : X <> [] -> blanks p ->
   safe_end (last (hd [] X :: map (app p) (tl X)) []) = safe_end (last X []).
 Proof.
@@ -927,7 +933,7 @@ Proof.
   { unfold R. rewrite safe_end_last_R by assumption. unfold X, post_lines. fold A.
     destruct A eqn:EA.
     - rewrite app_assoc. rewrite last_last. reflexivity.
-    - rewrite app_nil_r. rewrite last_app by exact HLne. apply (F_post v m). exact EA. }
+    - rewrite app_nil_r. rewrite last_app_r by exact HLne. apply (F_post v m). exact EA. }
   (* run the lexer *)
   cbn [app]. rewrite read_token_block.
   rewrite <- app_assoc. cbn [app].
@@ -953,5 +959,5 @@ Proof.
       rewrite trim_eq; [apply join_split|apply all_blank_pl|apply all_blank_pl|assumption..]. }
   eexists. eexists. split; [reflexivity|]. cbn [mk tkind thasval tvalue tstart tend cpos].
   repeat split; try reflexivity; [exact Eval|].
-  rewrite !app_length. cbn [length]. rewrite app_length. cbn [length]. lia.
+  cbn [length]. rewrite app_length. cbn [length]. lia.
 Qed.
